@@ -73,6 +73,7 @@ def load():
                     "known": meta.get("known", "").split(),
                     "expect_fail": meta.get("expect_fail", "").strip() or None,
                     "scaled": meta.get("scaled", "").strip().lower() in ("yes", "true", "1"),
+                    "api_only": meta.get("api_only", "").strip().lower() in ("yes", "true", "1"),
                     "timeout": int(meta.get("timeout", "900")),
                     "unwind": unwind,
                     "line": j + 1,
